@@ -4,9 +4,9 @@ Every mutant that passed the pinned suite AND the quick checks gets a class and 
 hand-written (mutation/reasons.json: "file:line" -> reason, or mutant id -> [class, reason])."""
 import json, collections, os, sys
 V = os.path.dirname(os.path.dirname(os.path.abspath(__file__)))
-FAM = sys.argv[1] if len(sys.argv) > 1 else '1'     # 1: first operator family (M...), 2: second family (N...)
-SFX = '' if FAM == '1' else '_2'
-R = json.load(open(os.path.join(V, 'mutation', 'reasons%s.json' % ('' if FAM == '1' else '2'))))
+FAM = sys.argv[1] if len(sys.argv) > 1 else '1'     # 1: first operator family (M...), 2: second (N...), 3: third (P...)
+SFX = '' if FAM == '1' else '_' + FAM
+R = json.load(open(os.path.join(V, 'mutation', 'reasons%s.json' % ('' if FAM == '1' else FAM))))
 recheck = {}
 p2 = os.path.join(V, 'mutation', 'stage2b%s.ndjson' % SFX)
 if os.path.exists(p2):
